@@ -123,6 +123,10 @@ def gen_plan(seed, tier):
         meths += ["predict", "decision_function", "score"]
       ops.append(dict(op="query", method=r.choice(meths), idx=idx_spec(), form=form,
                       fault=maybe_fault()))
+    if ops[-1].get("form") == "indices" and not ops[-1].get("fault") and r.random() < 0.08:
+      # an indicator that does not exist in the store (beyond either end): reading it fails
+      # inside the preprocessor - array-like, nested list or callable alike
+      ops[-1]["oob"] = dict(pos=r.random(), beyond=r.randint(0, 3), neg=r.random() < 0.3)
   return dict(run_seed=seed, dataset=desc, cls=name, params=p, pre=pre, ops=ops, int_store=int_store)
 
 
@@ -231,6 +235,27 @@ def _query_indices(name, method, D, spec):
   return (ind,), (formed,)
 
 
+def _with_oob(args, spec, N):
+  """Replace one indicator of the first argument by one that does not exist."""
+  a0 = args[0]
+  if isinstance(a0, list):
+    arr = np.array(a0, dtype=np.int64)
+  else:
+    arr = np.array(a0, copy=True)
+  if arr.size == 0 or arr.dtype.kind not in "iu":
+    return None
+  bad = N + int(spec["beyond"])
+  if spec.get("neg") and arr.dtype.kind == "i":
+    bad = -N - 1 - int(spec["beyond"])
+  info = np.iinfo(arr.dtype)
+  if not (info.min <= bad <= info.max):
+    return None
+  k = min(int(spec["pos"] * arr.size), arr.size - 1)
+  arr.flat[k] = bad
+  new0 = arr.tolist() if isinstance(a0, list) else arr
+  return (new0,) + tuple(args[1:])
+
+
 def _invoke(est, method, args, kwargs=None):
   try:
     with world.observed():
@@ -323,6 +348,13 @@ def run_plan(plan):
           continue
         ai, bf = _query_indices(name, method, D, op["idx"])
       ev["method"] = method
+      oob = op.get("oob") if op["form"] == "indices" else None
+      if oob and kind != "fit" and not a_defined:
+        oob = None      # not fitted (the last fit failed): NotFittedError comes first, legitimately
+      if oob:
+        ai = _with_oob(ai, oob, D.N)
+        if ai is None:
+          oob = None
       a_args = ai if op["form"] == "indices" else tuple(copy.deepcopy(x) for x in bf)
       # ---- fault arming (dry run on a pickled copy learns the call count)
       fault = op.get("fault") if (store is not None and op["form"] == "indices") else None
@@ -348,6 +380,26 @@ def run_plan(plan):
       if store is not None:
         store.disarm()
       world.perturb_ambient(h64("c05b", plan["run_seed"], i) % (2**31), 2)
+      if oob:
+        # the read fails inside the preprocessor: PreprocessorError, nothing else
+        from metric_learn.exceptions import PreprocessorError
+        cov["out_of_range_indicator"] += 1
+        cov["out_of_range_in_" + method] += 1
+        shape.append("%s/oob" % method)
+        ev.update(a=oa, oob=True)
+        events.append(ev)
+        if oa == "ok" or not isinstance(ea, PreprocessorError):
+          raise Violation("fault_surfaces", "method=%s,out_of_range,%s" % (
+                          method, "returned_value" if oa == "ok" else "leaked=" + type(ea).__name__),
+                          "%s.%s with an indicator outside the store (pre=%s) gave %s %s instead of "
+                          "PreprocessorError" % (name, method, plan["pre"], oa, str(ea)[:120]))
+        if kind in ("fit", "calibrate"):
+          a_defined = False
+        elif state_digest(A) != state_before:
+          raise Violation("fault_surfaces", "method=%s,out_of_range,state_changed" % method,
+                          "a failed %s changed the fitted state" % method)
+        fired_total += 1
+        continue
       if fired:
         ob, vb, eb = "not-run", None, None     # the twin must not advance past a failed op
       else:
